@@ -25,12 +25,13 @@ ERRV = ("error",)
 
 
 class Pipe:
-    __slots__ = ("data", "wclosed", "reader")
+    __slots__ = ("data", "wclosed", "reader", "rclosed")
 
     def __init__(self):
         self.data = b""        # bytes in the kernel buffer
         self.wclosed = False
         self.reader = None     # (w, wid, kind, n, got) the one pending read
+        self.rclosed = False   # read end closed by the director (cancel-and-close): the pipe leaves the alphabet
 
 
 class TModel(ChanModel):
@@ -213,6 +214,16 @@ class TModel(ChanModel):
         m._finish((w, m.wait[w][0], None), err(str(tag)), comps)
         return comps, m
 
+    def cancel_close(self, w, tag):
+        """the director cancels w, blocked in a read of pipe p, and closes p's read end in the same turn: the close acts on a
+        wait that is already abandoned, so w receives the cancellation - never the end-of-stream the close would give a
+        live reader"""
+        p = self.wait[w][1][1]
+        comps, m = self.cancel(w, tag)
+        m.pipes[p].rclosed = True
+        m.pipes[p].reader = None
+        return comps, m
+
     def pexit(self, k):
         """the child exits (code 3): only a still-live waiter of that process is resumed (with an error, :x)"""
         m = self.clone()
@@ -255,7 +266,7 @@ class TModel(ChanModel):
     def key(self):
         base = ChanModel.key(self)
         timers = tuple(sorted((t[0] - self.now, t[1], t[3], self.live_wid(t[1], t[2])) for t in self.timers))
-        pipes = tuple((pp.data, pp.wclosed,
+        pipes = tuple((pp.data, pp.wclosed, pp.rclosed,
                        None if pp.reader is None else (pp.reader[0], pp.reader[2], pp.reader[3], pp.reader[4],
                                                        self.live_wid(pp.reader[0], pp.reader[1])))
                       for pp in self.pipes)
